@@ -322,8 +322,8 @@ pub fn run_one(sc: &Sc, stats: &mut Stats) -> Result<(), (Vec<usize>, String)> {
 }
 
 pub fn scenarios(tier: Tier) -> Vec<Sc> {
-    let thorough = tier == Tier::Thorough;
-    let bound = if thorough { 4 } else { 3 };
+    let thorough = tier >= Tier::Thorough;
+    let bound = if tier >= Tier::Deep { 5 } else if thorough { 4 } else { 3 };
     let mut out = vec![];
     let setter_sets: Vec<Vec<Option<u32>>> = vec![vec![Some(1)], vec![None], vec![Some(1), Some(2)], vec![Some(1), None], vec![None, Some(2)], vec![None, None]];
     for ss in &setter_sets {
